@@ -49,17 +49,20 @@ def maniaPerfFromAttrs (a : Attrs R) (mods : Nat) (take : Option Nat) (lazer : B
     (b : ManiaB R) : GenState.Res (ManiaPerfAttrs R) :=
   (maniaFull (maniaAttrsOf a) (maniaSettingsOf mods take lazer prio) b).map fun r => ⟨a, r.1, r.2⟩
 
-/-- **map path**: `ManiaPerformance::new(&Beatmap::from_bytes(bytes)?)` with the same settings: the difficulty
-pipeline with the builder's `passed_objects`, then the attributes path -/
-def maniaPerfFromMap (A : SecArith R) (fuel : Nat) (bytes : List UInt8) (mods : Nat) (customRate : Option Nat)
-    (take : Option Nat) (lazer : Bool) (prio : Prio) (b : ManiaB R) : Out (GenState.Res (ManiaPerfAttrs R)) :=
-  match maniaDifficulty P A fuel bytes mods customRate take with
-  | .ok a => .ok (maniaPerfFromAttrs a mods take lazer prio b)
+/-- functorial action on the pipeline's outcome -/
+def outMap {α β : Type} (f : α → β) : Out α → Out β
+  | .ok a => .ok (f a)
   | .ioError => .ioError
   | .notMania m => .notMania m
   | .unsupported => .unsupported
   | .panic => .panic
   | .fuel => .fuel
+
+/-- **map path**: `ManiaPerformance::new(&Beatmap::from_bytes(bytes)?)` with the same settings: the difficulty
+pipeline with the builder's `passed_objects`, then the attributes path -/
+def maniaPerfFromMap (A : SecArith R) (fuel : Nat) (bytes : List UInt8) (mods : Nat) (customRate : Option Nat)
+    (take : Option Nat) (lazer : Bool) (prio : Prio) (b : ManiaB R) : Out (GenState.Res (ManiaPerfAttrs R)) :=
+  outMap (fun a => maniaPerfFromAttrs a mods take lazer prio b) (maniaDifficulty P A fuel bytes mods customRate take)
 
 /-- a builder on which nothing has been set -/
 def ManiaB.fresh : ManiaB R := ⟨none, none, none, none, none, none, none⟩
@@ -76,12 +79,7 @@ def maniaGradualPerfValue (A : SecArith R) (fuel : Nat) (bytes : List UInt8) (mo
     else
       match (gradualValues A fuel (P.dec64 (clockRateBits mods customRate)) cols l)[i - 1]? with
       | none => .ok none
-      | some (.ok a) => .ok (some (maniaPerfFromAttrs a mods (some i) lazer .best (ManiaB.fresh.update s)))
-      | some .ioError => .ioError
-      | some (.notMania m) => .notMania m
-      | some .unsupported => .unsupported
-      | some .panic => .panic
-      | some .fuel => .fuel
+      | some v => outMap (fun a => some (maniaPerfFromAttrs a mods (some i) lazer .best (ManiaB.fresh.update s))) v
   | .ioError => .ioError
   | .notMania m => .notMania m
   | .unsupported => .unsupported
